@@ -21,7 +21,7 @@ theorem WkInv.congr' {c c' : Ctl.State (Load.State τ) τ} {j : Nat} {w : Wk τ}
   have hsd : c'.env.flags.shuttingDown j = c.env.flags.shuttingDown j := by unfold Flags.shuttingDown; rw [hd, hse]
   have hq : QnD c'.sched c'.env j ↔ QnD c.sched c.env j := by unfold QnD; rw [hs, hsd]
   refine ⟨h.loopCb, h.running, h.have1, h.init0, h.early, h.boot0, h.latePc, h.inboxK, h.ownP, h.ownO, h.evPlain, ?_, ?_, ?_, ?_, ?_, ?_,
-    ?_, ?_, ?_, ?_, ?_, ?_, ?_⟩
+    h.noticeLast, h.bootNoReady, ?_, ?_, ?_, ?_, ?_, ?_, ?_⟩
   · intro hal; rw [hb hal]; exact h.notBroken hal
   · rw [ha, hd]; exact h.notice1
   · rw [ha, hd]; exact h.notice2
@@ -101,7 +101,7 @@ theorem crash_wk {c : Ctl.State (Load.State τ) τ} {k : Nat} {w : Wk τ} (h : W
   have hcp : collPending k ({ w with alive := false, inbox := [], outbox := w.outbox ++ [.endMarker] } : Wk τ) = collPending k w := by
     simp only [collPending, hfl]
   refine ⟨h.loopCb, h.running, h.have1, h.init0, h.early, ?_, h.latePc, ?_, h.ownP, ?_, ?_, ?_, ?_, h.notice2, h.noticeDown, h.inactive,
-    h.inactiveDown, ?_, ?_, ?_, ?_, ?_, h.keysActive, ?_⟩
+    h.inactiveDown, h.noticeLast, by rw [hfl]; exact h.bootNoReady, ?_, ?_, ?_, ?_, ?_, h.keysActive, ?_⟩
   · intro hh; cases hh
   · intro c' hc'; simp at hc'
   · have : ([WMsg.endMarker] : List (WMsg τ)).filterMap (evOf k) = [] := rfl
